@@ -294,6 +294,13 @@ func corrC09(r *Run) {
 	defer waitTables()
 	codecHistoryTests(r, "C09", r.N(90, 1500), r.N(14, 100))
 	coldFirstCallTests(r, "C09")
+	{ // the round trip through every entry point of the codecs the detectors can return (String, Writer, Reader ... = Bytes)
+		dcs := []coding.DataCoding{coding.UCS2Coding}
+		for _, d := range detectList {
+			dcs = append(dcs, d.dc)
+		}
+		xfEntryPointTests(r, "xf", dcs)
+	}
 
 	// ---- 1. exhaustive: every scalar value as a one-character text
 	for _, det := range []struct {
